@@ -31,6 +31,8 @@ pub enum Program {
     ReadLoop,
     /// write these packets one after the other
     Writes(Vec<Packet>),
+    /// a fixed sequence of calls: None = read(), Some(p) = write(p) (tokio driver only)
+    Ops(Vec<Option<Packet>>),
 }
 
 #[derive(Clone, Debug)]
@@ -229,7 +231,9 @@ fn enabled(inst: &Instance, hist: &[Act], r: &RunResult) -> Vec<Act> {
             if is_async && pend < inst.pending_budget {
                 out.push(Act::WritePending);
             }
-            if is_async && canc < inst.cancel_budget {
+            // only a pending READ is dropped by the caller (the property is about reads; a write
+            // that is abandoned half way is the caller's own doing)
+            if is_async && canc < inst.cancel_budget && r.suspended_in_read {
                 out.push(Act::Cancel);
             }
         },
